@@ -41,56 +41,45 @@ deriving Repr
 
 -- ------------------------------------------------------------------ numpy primitives
 
-/-- `min(xs)` / `np.min`; `none` on the empty list -/
-def minRat? : List Rat → Option Rat
+/-- the best element under a total preorder `le` (first one among equals): `min(xs)`, `np.max`, ...;
+    `none` on the empty list -/
+def best? {α : Type} (le : α → α → Bool) : List α → Option α
   | [] => none
   | a :: l =>
-    match minRat? l with
+    match best? le l with
     | none => some a
-    | some m => some (if a ≤ m then a else m)
+    | some m => some (if le a m then a else m)
 
-def minInt? : List Int → Option Int
-  | [] => none
-  | a :: l =>
-    match minInt? l with
-    | none => some a
-    | some m => some (if a ≤ m then a else m)
-
-def maxInt? : List Int → Option Int
-  | [] => none
-  | a :: l =>
-    match maxInt? l with
-    | none => some a
-    | some m => some (if m ≤ a then a else m)
+def minRat? : List Rat → Option Rat := best? (fun a b => decide (a ≤ b))
+def minInt? : List Int → Option Int := best? (fun a b => decide (a ≤ b))
+def maxInt? : List Int → Option Int := best? (fun a b => decide (b ≤ a))
 
 /-- rows paired with their position in the input: `idx` of `np.argsort` -/
 def enumFrom (i : Nat) : List Note → List (Nat × Note)
   | [] => []
   | n :: ns => (i, n) :: enumFrom (i + 1) ns
 
-def insertByOnset (x : Nat × Note) : List (Nat × Note) → List (Nat × Note)
+def insertBy {α : Type} (le : α → α → Bool) (x : α) : List α → List α
   | [] => [x]
-  | y :: ys => if x.2.onset ≤ y.2.onset then x :: y :: ys else y :: insertByOnset x ys
+  | y :: ys => if le x y then x :: y :: ys else y :: insertBy le x ys
 
-/-- `idx = np.argsort(onset)` applied to all columns: a (stable) sort by onset.
-    numpy's default sort may order ties differently; `order_indep` shows no output depends on it. -/
-def sortByOnset : List (Nat × Note) → List (Nat × Note)
+/-- stable insertion sort (`np.argsort` / `list.sort` applied to whole rows) -/
+def sortBy {α : Type} (le : α → α → Bool) : List α → List α
   | [] => []
-  | x :: xs => insertByOnset x (sortByOnset xs)
+  | x :: xs => insertBy le x (sortBy le xs)
 
-def insertByIdx {α : Type} (x : Nat × α) : List (Nat × α) → List (Nat × α)
-  | [] => [x]
-  | y :: ys => if x.1 ≤ y.1 then x :: y :: ys else y :: insertByIdx x ys
-
-def sortByIdx {α : Type} : List (Nat × α) → List (Nat × α)
-  | [] => []
-  | x :: xs => insertByIdx x (sortByIdx xs)
+def leOnset (x y : Nat × Note) : Bool := decide (x.2.onset ≤ y.2.onset)
+def leIdx {α : Type} (x y : Nat × α) : Bool := decide (x.1 ≤ y.1)
 
 /-- `a[idx.argsort()]`: the rows of the sorted table put back at their input positions -/
-def unsort {α : Type} (l : List (Nat × α)) : List α := (sortByIdx l).map (·.2)
+def unsort {α : Type} (l : List (Nat × α)) : List α := (sortBy leIdx l).map (·.2)
 
-/-- the working copies after `x = x[idx]` -/
-def sorted (notes : List Note) : List (Nat × Note) := sortByOnset (enumFrom 0 notes)
+/-- `idx = np.argsort(onset)` and the working copies after `x = x[idx]`: a (stable) sort by onset.
+    numpy's default sort may order ties differently; `order_indep` shows no output depends on it. -/
+def sorted (notes : List Note) : List (Nat × Note) := sortBy leOnset (enumFrom 0 notes)
+
+/-- the sorted rows without their input positions -/
+def sortedNotes (notes : List Note) : List Note := (sorted notes).map (·.2)
 
 -- ------------------------------------------------------------------ frames of one note
 
@@ -142,14 +131,14 @@ def rowsFull (o : Opts) (notes : List Note) : Int :=
 /-- `min_time`: `onset[0]` of the sorted onsets when silence is removed,
     else `0 if min(onset) >= 0 else min(onset)` -/
 def t0Of (o : Opts) (notes : List Note) : Rat :=
-  if o.removeSilence then ((sorted notes).head?.map (·.2.onset)).getD 0
+  if o.removeSilence then ((sortedNotes notes).head?.map (·.onset)).getD 0
   else
-    let m := (minRat? ((sorted notes).map (·.2.onset))).getD 0
+    let m := (minRat? ((sortedNotes notes).map (·.onset))).getD 0
     if 0 ≤ m then 0 else m
 
 /-- `pr_offset.max()` -/
 def maxOffOf (o : Opts) (notes : List Note) : Int :=
-  (maxInt? ((sorted notes).map (fun x => offFull o (t0Of o notes) x.2))).getD 0
+  (maxInt? ((sortedNotes notes).map (offFull o (t0Of o notes)))).getD 0
 
 /-- `N`; `none` = "`end_time` must be higher or equal than the last note offset time" -/
 def colsOf (o : Opts) (notes : List Note) : Option Int :=
@@ -170,16 +159,12 @@ def noteCells (o : Opts) (lowest : Int) (t0 : Rat) (n : Note) : List Entry :=
 
 /-- `_idx_fill`, in the order of the sorted notes -/
 def fillOf (o : Opts) (notes : List Note) : List Entry :=
-  (sorted notes).flatMap fun x => noteCells o (lowestOf o notes) (t0Of o notes) x.2
+  (sortedNotes notes).flatMap (noteCells o (lowestOf o notes) (t0Of o notes))
 
-/-- `fill_dict[(row, col)]` reduced by `max`: `none` when the key is absent -/
+/-- `max(fill_dict[(row, col)])`: the velocities appended under one key, reduced by `max`;
+    `none` when the key is absent -/
 def keyMax (fill : List Entry) (p j : Int) : Option Int :=
-  fill.foldr (fun e acc =>
-    if e.1 = p ∧ e.2.1 = j then
-      (match acc with
-       | none => some e.2.2
-       | some m => some (if m ≤ e.2.2 then e.2.2 else m))
-    else acc) none
+  maxInt? ((fill.filter (fun e => e.1 == p && e.2.1 == j)).map (·.2.2))
 
 /-- one index row `(vertical position, onset frame, offset frame, original midi pitch)` -/
 def idxRow (o : Opts) (lowest : Int) (t0 : Rat) (start : Int) (n : Note) : Int × Int × Int × Int :=
@@ -395,13 +380,7 @@ def runLe (a b : Run) : Bool :=
   else if a.off ≠ b.off then a.off < b.off
   else a.vel ≤ b.vel
 
-def insertRun (x : Run) : List Run → List Run
-  | [] => [x]
-  | y :: ys => if runLe x y then x :: y :: ys else y :: insertRun x ys
-
-def sortRuns : List Run → List Run
-  | [] => []
-  | x :: xs => insertRun x (sortRuns xs)
+def sortRuns : List Run → List Run := sortBy runLe
 
 /-- the runs found, in the sorted order of `note_list` -/
 def decodeRuns (cols : List (List Int)) : List Run :=
